@@ -10,9 +10,10 @@ def sh(cmd, **kw):
 def one(src):
     src = src.rstrip('/')
     k = os.path.basename(src); pid = os.path.basename(os.path.dirname(src))
-    dest = f'/verif/seeded/{pid}-{k.rstrip("p")}'
+    wave = 'w2-' if 'seed_out2' in src else ''
+    dest = f'/verif/seeded/{pid}-{wave}{k.rstrip("p")}'
     wt = tempfile.mkdtemp(prefix='smwt.', dir='/tmp')
-    res = dict(seed=f'{pid}-{k}')
+    res = dict(seed=f'{pid}-{wave}{k}')
     try:
         assert sh(f'git -C /repo worktree add --detach {wt} HEAD').returncode == 0
         head = sh('git -C /repo rev-parse --short HEAD').stdout.strip()
